@@ -1,10 +1,15 @@
 #!/bin/bash
-# run all quick checks with several seeds; print non-ok lines
-cd lean && lake build 2>&1 | tail -1; cd ..
-for seed in 11 12 13; do
+# tools/multiseed.sh [seed…]  — all quick checks under several seeds; a non-zero rc on the unchanged tree is a false
+# alarm (or a defect) to investigate.  Output: one line per (seed, check).
+cd "$(dirname "$0")/.."
+SEEDS="${@:-11 12 13}"
+(cd lean && lake build 2>&1 | tail -1)
+O=${VERIF_OUT:-/tmp/multiseed-out}; export VERIF_OUT=$O
+for seed in $SEEDS; do
   for p in C01 C02 C03 C04 C05 C06 C07 C08 C09 C10 C11 C12 C13 C14 C15 C16 C17 C18 C19 C20; do
     VERIF_SEED=$seed timeout 1500 ./check $p --tier quick > /tmp/ms_${p}_${seed}.log 2>&1; rc=$?
     echo "seed=$seed $p rc=$rc $(grep -E '^\[C' /tmp/ms_${p}_${seed}.log | tail -1 | cut -c1-160)"
     grep VIOLATION /tmp/ms_${p}_${seed}.log | head -3
+    [ $rc -ne 0 ] && cp $O/replay/$p-*.json /tmp/ 2>/dev/null
   done
 done
